@@ -12,7 +12,7 @@ def run(rep):
     enginep.engine_deductive(rep, TARGETS)
     enginep.topython_deductive(rep)
     q = rep.tier == 'quick'
-    fw.standin(rep, 'real_terms.py', ['search', 3 if q else 4, 6000 if q else 150000, rep.seed],
+    fw.standin(rep, 'real_terms.py', ['search', 3 if q else 4, 50000 if q else 400000, rep.seed],
                'refutation search: real get_value/unify under binding histories vs the spec mirror (resolve)',
                'term pairs up to 3/4 nodes under <=3 earlier active unifications')
     if os.path.exists(os.path.join(fw.VERIF, 'standin', 's_c15.py')):
